@@ -12,9 +12,7 @@ Op vocabulary (positional arguments first, `o=<slot>` selects the array, default
   drop o=<k> | destroy | destroy_cb
 
 focus: None (C01 core ops only), "iter", "derived", "sort", "reject", "growth", "fault", "all".
-No `fail=` is ever generated (the runner adds refusals).  `zit_add` is left out of the "fault"
-streams: a refused `cc_array_zip_iter_add` advances the cursor although it reports CC_ERR_ALLOC
-(see corpus/array/defect_zip_iter_add_refused.ops).
+No `fail=` is ever generated (the runner adds refusals).
 The generator keeps ideal Python lists only to choose mostly-valid arguments; it is not an oracle."""
 import itertools
 
@@ -78,6 +76,12 @@ class ArrayGen:
                         out.append([f"new cap={cap} exp={ex}"] + list(seq) + tail + ["destroy"])
         out.append(["new_default", "add 1", "add 2", "remove_last", "get_last", "destroy_cb"])
         out.append(["new cap=0 exp=2", "destroy"])
+        if focus in ("reject", "all"):
+            # capacities whose byte size is absurd or wraps (A9): 2^61-1 is refused by the allocator,
+            # 2^61 and above are invalid
+            for cap in (2 ** 61 - 1, 2 ** 61, 2 ** 61 + 1, 2 ** 62, 2 ** 63, SIZE_MAX - 1, SIZE_MAX):
+                for ex in ("2", "1.5", "0.5"):
+                    out.append([f"new cap={cap} exp={ex}", "add 1", "destroy"])
         out.append(["new cap=2", "add 1", "add 2", "add 3", "destroy_cb"])
         return out
 
@@ -122,7 +126,7 @@ class ArrayGen:
             extra += [("mk", 6), ("drop", 1.5), ("other", 10)]
         if focus == "fault":
             core = [("add", 10), ("add_at", 6), ("trim_capacity", 4), ("remove_last", 3), ("remove_at", 2), ("filter_mut", 1)]
-            extra = [("mk", 5), ("drop", 2), ("other", 4), ("iter_add_prog", 3)]
+            extra = [("mk", 5), ("drop", 2), ("other", 4), ("iter_add_prog", 3), ("zip_add_prog", 2)]
         if focus == "growth":
             core = [("add", 30), ("add_at", 6), ("remove_last", 3), ("trim_capacity", 1.5), ("remove_at", 1), ("capacity", 1)]
         if focus == "reject":
@@ -241,7 +245,7 @@ class ArrayGen:
                     if rng.random() < 0.2: ops.append("it_index")
                     if rng.random() < 0.08 or len(ops) > length + 40:
                         break
-            elif op == "zip_prog":
+            elif op in ("zip_prog", "zip_add_prog"):
                 if len(L) < 2:
                     free = [s for s in range(1, NSLOT) if s not in L]
                     to = free[0]
@@ -260,10 +264,10 @@ class ArrayGen:
                         break
                     pos += 1
                     if rng.random() < 0.3: ops.append("zit_index")
-                    if rng.random() < 0.25:
+                    if op == "zip_prog" and rng.random() < 0.25:
                         v, w = pick_value(rng), pick_value(rng); ops.append(f"zit_replace {v} {w}"); xa[pos - 1] = v; xb[pos - 1] = w
                     r = rng.random()
-                    if r < 0.3:
+                    if op == "zip_prog" and r < 0.3:
                         ops.append("zit_remove"); pos -= 1; del xa[pos]; del xb[pos]
                         if rng.random() < 0.1: ops.append("zit_remove")
                     elif r < 0.5:
